@@ -2,7 +2,7 @@
    spgemm_rmerge  (amgcl/detail/spgemm.hpp:129-504): merge_rows (both variants),
                   prod_row_width (symbolic pass), prod_row (numeric pass);
    pointwise_matrix (amgcl/backend/builtin.hpp:500-663): both passes of the block
-                  scan exactly as coded (current code, after fix 2f75975), and the
+                  scan exactly as coded (current code, after fix 0e81e11), and the
                   pre-fix scan as [*_old] (the entry that ended the scan of a block
                   column was consumed: [beg++] preceded the [c >= col_end] test);
    spectral_radius (builtin.hpp:779-909): Gershgorin branch (current code: [dia] is
@@ -137,7 +137,7 @@ Definition pw_init (js : list row) : option nat :=
 
 (* inner while loop over one row of the block: consume the entries with c < col_end; the
    first entry with c >= col_end ends the loop and is NOT consumed (++beg follows the test;
-   /repo commit 2f75975).  acc = (first, cur_val) as option.
+   /repo commit 0e81e11).  acc = (first, cur_val) as option.
    returns (rest of the row, cur, acc) *)
 Fixpoint pw_scan_row (col_end : nat) (r : row) (cur : option nat) (acc : option S)
   : row * option nat * option S :=
@@ -243,7 +243,7 @@ Definition pointwise_spec (A : crs) (bs : nat) : crs :=
   let mp := Nat.div (ncols A) bs in
   mkCrs mp (map (pw_spec_row bs mp) (groups np bs (rows A))).
 
-(* --- the scan as it was BEFORE /repo commit 2f75975 (kept for the refutation theorems
+(* --- the scan as it was BEFORE /repo commit 0e81e11 (kept for the refutation theorems
    C08_pointwise_old_refuted and ..._pattern): an entry with c >= col_end is CONSUMED TOO and ends the loop.  acc = (first, cur_val) as option.
    returns (rest of the row, cur, acc) *)
 Fixpoint pw_scan_row_old (col_end : nat) (r : row) (cur : option nat) (acc : option S)
@@ -331,7 +331,7 @@ Definition pointwise_counts_old (A : crs) (bs : nat) : list nat :=
 Definition s2 : S := s1 + s1.      (* static_cast<scalar_type>(2) *)
 
 (* one row of the Gershgorin loop; [dia] is a local of the row, initialised to the identity
-   (/repo commit f082a42; before that it was a thread-private variable that survived from row
+   (/repo commit 519d545; before that it was a thread-private variable that survived from row
    to row) and overwritten by every stored entry with column = row index *)
 Definition gersh_row (scale : bool) (emax : S) (ir : nat * row) : S :=
   let sd := fold_left (fun (sd : S * S) e =>
